@@ -65,7 +65,7 @@ if payload["mode"] == "probe":
             pass
     json.dump(out, sys.stdout)
 else:
-    src = [HEAD]
+    src = [HEAD, payload.get("prelude", "")]
     for c in payload["cases"]:
         src += [c["comptime_src"], c["regular_src"]]
     mod = load("c21_cases", "\n".join(src))
